@@ -49,8 +49,9 @@ def strategy_(draw):
             conts.append(draw(seqs.seq_case(kinds=("Array", "List"), ets=("Probe",), max_ops=30)))
         elif fam == "map":
             c = draw(maps.map_case(draw(st.sampled_from(["Table", "Tree"]))))
-            # force Probe keys and values
-            if c["kt"] != "Probe" or c["vt"] != "Probe":
+            # at least one of key / value must be the instrumented type (equal and different sizes: Probe/Probe,
+            # Int/Probe, Probe/Int)
+            if c["kt"] != "Probe" and c["vt"] != "Probe":
                 c = None
             conts.append(c)
         else:
@@ -158,7 +159,7 @@ def run_case(ctx, case):
             if r.fam == "seq":
                 t += len(r.model)
             elif r.fam == "map":
-                t += 2 * len(r.model)
+                t += ((r.kt == "Probe") + (r.vt == "Probe")) * len(r.model)
             else:
                 t += r.live()
         return t
@@ -180,7 +181,8 @@ def run_case(ctx, case):
     for step, ci in enumerate(case["order"]):
         for (a, b) in cross.get(step, []):
             ra, rb = runs[a], runs[b]
-            if a != b and ra.fam == rb.fam and ra.fam in ("seq", "map"):
+            if a != b and ra.fam == rb.fam and ra.fam in ("seq", "map") and \
+                    (ra.fam == "seq" or (ra.kt, ra.vt) == (rb.kt, rb.vt)):
                 P.add("assign %s %s" % (ra.c, rb.c), lambda ob: None if ob.startswith("ok") else "assign failed: " + ob)
                 if ra.fam == "seq":
                     ra.model[:] = list(rb.model)
